@@ -12,6 +12,7 @@ CONSTANTS
   FinalEOLs <- OneEOL
   EntryEOLs <- OneEntryEOL
   MemberHdrSeps <- OneHdrSep
+  MemberMidSeps <- OneMidSep
   ObjStmTails <- OneEmpty
   DictOrders <- OnlyFalse
   IntStyles <- OnlyPlain
